@@ -159,6 +159,7 @@ type vtC04Env struct {
 	cache   *GangCache
 	mgr     *PodGroupManager
 	ctx     context.Context
+	lastPG  map[int64]*v1alpha1.PodGroup // the PodGroup object last delivered per gang (old object of the next update)
 }
 
 // vtC04NewEnv decodes the static part of a case and returns the operations.
@@ -191,6 +192,7 @@ func vtC04NewEnv(in []int64) (*vtC04Env, [][6]int64) {
 	e.cache = NewGangCache(args, nil, nil, nil, e.h)
 	e.mgr = &PodGroupManager{handle: e.h, args: args, cache: e.cache}
 	e.ctx = context.TODO()
+	e.lastPG = map[int64]*v1alpha1.PodGroup{}
 	return e, ops
 }
 
@@ -249,16 +251,24 @@ func (e *vtC04Env) apply(op [6]int64) int64 {
 		}
 	case 4: // PodGroup add event
 		if validGang {
-			cache.onPodGroupAdd(e.mkPG(a, vtC04Cfg{b, c, d, f}))
+			pg := e.mkPG(a, vtC04Cfg{b, c, d, f})
+			cache.onPodGroupAdd(pg)
+			e.lastPG[a] = pg
 		}
 	case 5: // PodGroup update event
 		if validGang {
 			pg := e.mkPG(a, vtC04Cfg{b, c, d, f})
-			cache.onPodGroupUpdate(pg, pg)
+			old := e.lastPG[a]
+			if old == nil { // the informer always has an old object: an earlier version without declaration
+				old = &v1alpha1.PodGroup{ObjectMeta: metav1.ObjectMeta{Namespace: vtC04NS, Name: pg.Name}}
+			}
+			cache.onPodGroupUpdate(old, pg)
+			e.lastPG[a] = pg
 		}
 	case 6: // PodGroup delete event
 		if validGang {
 			cache.onPodGroupDelete(e.mkPG(a, vtC04Cfg{}))
+			delete(e.lastPG, a)
 		}
 	case 7: // Permit, as Coscheduling.Permit (coscheduling.go) drives it; the framework parks a pod told to wait
 		if validPod {
